@@ -8,6 +8,7 @@
 mod asm;
 mod fakebtc;
 mod hist;
+mod http;
 mod obs;
 mod pre;
 mod props;
